@@ -60,6 +60,14 @@ CHECKS = {
         technique='one-action TLA+ model of the dictionary filter (CatDict.tla) with all small documents x dictionaries enumerated by TLC and replayed into the real apply_category_filters; shipped strings and dictionary judged by the category-reader spec',
         text='TLC enumerates 113k document/dictionary vectors with position-coded scores; the real filter output must equal CatDict!Filtered entry by entry, dependency scores and tokens untouched; every distinct shipped category string must be accepted by CatReaderOps!Read and by the real parser and round-trip, every cat_dict.en category must be in targets.en by value, and the shipped dictionary must be applicable through the real loader',
         ref='6/C17'),
+    'C08': dict(
+        technique='format semantics in TLA+ (Formats.tla: escaped spelling, tree decoding, reader-tree comparison); real auto_of/conll_of output lexed independently and re-read by the real read_auto, every tree and reprinted line trace-validated by RenderTrace.tla',
+        text='for random grammar-licensed and arbitrary trees with awkward tokens (pure bracket/angle tokens, tokens containing them, non-ASCII) the AUTO text must decode to the derivation (independent lexer + Formats!NodeFails), read_auto must return the same categories, shape, head flags, POS tags and escaped words (Formats!ReadFails), auto_of of the tree read must reproduce the line, and the CoNLL fragments must concatenate to the AUTO line',
+        ref='6/C08'),
+    'C20': dict(
+        technique='format semantics in TLA+ (Formats.tla); real ptb_of -> read_ptb and ja_of -> read_ccgbank round trips (plain and with bank dependency annotations) and truncated PTB lines, trace-validated by RenderTrace.tla',
+        text='trees over the English (PTB) and Japanese (bank format) lexicons incl. unary nodes and bracket tokens are printed by the real encoders and read by the real readers; categories, shape, words and (Japanese) rule symbols of every node are compared in TLA+; incomplete PTB lines must raise; tokens containing a round bracket inside a longer word are a recorded known finding (probe batches)',
+        ref='6/C20'),
 }
 NOT_YET = 'check not built yet (build in progress; see DESIGN.md section 12)'
 
